@@ -1,7 +1,8 @@
 --------------------------- MODULE TracePathResolve ---------------------------
 (* Phase T for C33: the harness generates random, deeper and much wider trees (up to 13 nodes,
    directories with 0/30/300/700 filler entries, HAMT fanout 8/16/256), logs the tree once
-   ("Tree") and then one "Resolve" event per query and API with the projected real result.
+   ("Tree") and then one "Resolve" event per query and API with the projected real result (for
+   ResolvePath including what the returned node gave when it was used after the call returned).
    Every event must agree with ResolveTree on the logged tree. *)
 EXTENDS PathResolve
 
@@ -20,8 +21,20 @@ TInit == l = 1 /\ tree = NoTree /\ dev = {}
 TTree == /\ IsEvent("Tree") /\ WellFormed(Ev.tree)
          /\ tree' = Ev.tree /\ UNCHANGED dev
 
+\* ResolvePath also returns the NODE; the harness uses it after the call has returned (lists it, looks
+\* up the logged probe names, reads a file to the end) and logs what it got: that must be Use of the
+\* named node for exactly those probe names (JSON arrays arrive as sequences)
+SeqSet(q) == {q[i] : i \in 1..Len(q)}
+UseAgrees(u, d) ==
+  LET w == Use(tree, d, {p[1] : p \in SeqSet(u.look)}) IN
+    /\ u.kind = w.kind
+    /\ IF w.kind = "file" THEN u.content = w.content
+       ELSE /\ Len(u.ents) = Cardinality(w.ents) /\ SeqSet(u.ents) = w.ents
+            /\ u.fill = w.fill
+            /\ Len(u.look) > 0 /\ Len(u.look) = Cardinality(w.look) /\ SeqSet(u.look) = w.look
 \* ideal: both APIs follow the walk by name
-Agrees(r) == \/ r.st = "ok" /\ Ev.ok /\ Ev.target = r.at /\ Ev.rem = 0
+Agrees(r) == \/ /\ r.st = "ok" /\ Ev.ok /\ Ev.target = r.at /\ Ev.rem = 0
+                /\ (Ev.api = "path" => UseAgrees(Ev.use, r.at))
              \/ r.st = "nolink" /\ ~Ev.ok /\ Ev.err = "nolink" /\ Ev.name = r.name
              \/ r.st = "notdir" /\ ~Ev.ok
 TResolve == /\ IsEvent("Resolve") /\ Ev.api \in {"last", "path"}
